@@ -49,6 +49,24 @@ theorem tcp_gate_before_upstream (env : Env) (ss : List Step)
   subst this
   exact Props.C12.gate_before_upstream_tcp env _ (by decide) h
 
+/-- `GrpcProxyInterceptor.Stream`: lookup, then the access check on the peer address (a top-level
+`if … { return status.Error(codes.PermissionDenied, …) }`), then the handler that runs the director and dials.
+There is no authentication step on this path (recorded finding, class `grpc-unauthorized`). -/
+theorem grpc_order_pinned : steps grpcOrder = some [.lookup, .access, .upstream] := by decide
+
+theorem grpc_gate_returns : grpcGateReturns = true ∧ grpcDeniedCode = "codes.PermissionDenied" := by decide
+
+theorem grpc_gate_before_upstream (env : Env) (ss : List Step) (hs : steps grpcOrder = some ss)
+    (h : (runGate env ss false).2 = true) : env.found = true ∧ env.denied = false := by
+  have : ss = [.lookup, .access, .upstream] := by
+    have := grpc_order_pinned; rw [hs] at this; exact Option.some.inj this
+  subst this
+  exact Props.C12.gate_before_upstream_tcp env _ (by decide) h
+
+/-- `AccessDeniedTCP` decides by calling `AccessDeniedAddr`, the function the gRPC interceptor uses: one
+decision (the model's `accessDeniedTCP`) for TCP connections and gRPC peers. -/
+theorem tcp_and_grpc_share_decision : tcpDelegatesToAddr = 1 := by decide
+
 /-- The keys of the rule map the model calls `allow` and `deny`. -/
 theorem tags_pinned : ipAllowTag = "allow:ip" ∧ ipDenyTag = "deny:ip" := by decide
 
